@@ -67,6 +67,9 @@ def calls(self, e, st, spec):
         for k in e.keywords:
             if k.arg == "delimiter":
                 delim = self.ev(k.value, st, spec)
+            else:
+                # quoting / skipinitialspace / escapechar / dialect change what a row means: outside the model
+                raise EngineError(f"{name} with option {k.arg!r}: the csv model covers the delimiter only")
         self.used_models.add(TRUSTED)
         return alloc(st, {"$cls": "CsvWriter" if name == "csv.writer" else "CsvReader", "file": f, "delimiter": delim})
     if isinstance(e.func, ast.Attribute) and e.func.attr == "writerow":
